@@ -139,7 +139,9 @@ def implied(e, pol):
             if is_zero_lit(z):
                 return implied(x, pol if e["op"] == "!=" else not pol)
         s1, s2 = sorted([show(a), show(b)])
-        out.add(("G", "(%s == %s)" % (s1, s2), pol == (e["op"] == "=="), deps_of(e)))
+        key = "(%s == %s)" % (s1, s2)
+        _reg(key, dict(e, op="=="))  # the key stands for equality; `!=` is the same key with the other polarity
+        out.add(("G", key, pol == (e["op"] == "=="), deps_of(e)))
         return out
     if k == "Lit":
         return out
